@@ -1035,6 +1035,11 @@ where
     // memoised result can be served: the cache-free reference run of C06
     let gcall = case.param("gcall") == Some("1");
     vtrace::set_rendezvous(case.param_u64("rdv", 0));
+    // split=<d>: recursion depth up to which the parallel recursor forks (default: chosen by the pool)
+    if let Some(d) = case.param("split") {
+        let d: u32 = d.parse().unwrap();
+        it.core.mref.with_manager_shared(|m| oxidd::WorkerPool::set_split_depth(oxidd::HasWorkers::workers(m), Some(d)));
+    }
     let mut idx = 0;
     let mut par_no = 0u64;
     while idx < case.ops.len() {
